@@ -99,6 +99,37 @@ LAMELLAR_PARS = [["half_thickness", "Ang", 25, [0, INF], "volume", "half of the 
 LAMELLAR_TR = "thickness = half_thickness + half_thickness"
 
 
+# a base model written for the family: a validity expression in which the parameter is an operand of '*'
+CUSTOM_CAPPED = dict(
+    name="verif_capped", title="capped decay", description="test base for reparameterisation",
+    category="shape-independent",
+    parameters=[["radius", "Ang", 20.0, [0, INF], "volume", "size"],
+                ["cap", "Ang", 100.0, [0, INF], "", "upper limit of twice the size"],
+                ["contrast", "", 1.0, [-INF, INF], "", "amplitude"]],
+    Iq="return contrast*exp(-q*radius);",
+    form_volume="return radius*radius*radius;",
+    valid="2.0*radius <= cap && cap - radius >= -radius",
+)
+CAPPED_PARS = [["r_in", "Ang", 10.0, [0, INF], "volume", "inner size"],
+               ["gap", "Ang", 5.0, [0, INF], "volume", "size increment"]]
+CAPPED_TR = "radius = r_in + gap"
+
+# every base volume parameter replaced by a parameter that is NOT of type volume
+SPHERE_VOL_PARS = [["vol", "Ang^3", 33510.0, [0, INF], "", "sphere volume (plain parameter, no dispersity type)"]]
+SPHERE_VOL_TR = "radius = cbrt(vol/M_4PI_3)"
+
+
+def custom_base(spec):
+    """ModelInfo of a base model defined here (module-like object through the library's own make_model_info)."""
+    import types
+    from sasmodels import modelinfo
+    mod = types.ModuleType("verif_custom_" + spec["name"])
+    mod.__file__ = "verif_custom_%s.py" % spec["name"]
+    for k, v in spec.items():
+        setattr(mod, k, v)
+    return modelinfo.make_model_info(mod)
+
+
 QUICK_PROGRAMS = [
     ("ellipsoid_vol_ecc", "ellipsoid", ELLIPSOID_PARS, ELLIPSOID_TR, None, ["Iq", "Iqxy"]),
     ("ellipsoid_after_phi", "ellipsoid", ELLIPSOID_PARS, ELLIPSOID_TR, {"phi": "volume,eccentricity"}, ["Iqxy"]),
@@ -108,6 +139,8 @@ QUICK_PROGRAMS = [
     ("sphere_affine", "sphere", SPHERE_PARS, SPHERE_TR, None, ["Iq"]),
     ("cylinder_valid", "cylinder", CYL_PARS, CYL_TR, {"sld_solvent": "vol,ratio"}, ["Iq", "Iqxy"]),
     ("lamellar_half", "lamellar", LAMELLAR_PARS, LAMELLAR_TR, None, ["Iq"]),
+    ("custom_valid_with_product", CUSTOM_CAPPED, CAPPED_PARS, CAPPED_TR, None, ["Iq"]),
+    ("sphere_volume_as_plain_parameter", "sphere", SPHERE_VOL_PARS, SPHERE_VOL_TR, None, ["Iq"]),
 ]
 
 THOROUGH_PROGRAMS = QUICK_PROGRAMS + [
@@ -130,7 +163,7 @@ THOROUGH_PROGRAMS = QUICK_PROGRAMS + [
 def build(program):
     from sasmodels import core
     tag, base, pars, translation, insert_after, kinds = program
-    base_info = core.load_model_info(base)
+    base_info = custom_base(base) if isinstance(base, dict) else core.load_model_info(base)
     info = core.reparameterize(base_info, [list(p) for p in pars], translation,
                                filename="verif_%s.py" % tag, insert_after=insert_after)
     return base_info, info
